@@ -654,7 +654,14 @@ func (b *Builder) of1(v ssa.Value, at ssa.Instruction, depth int) *Term {
 	case *ssa.IndexAddr:
 		return b.mk("iaddr", "", v, b.of(x.X, at, depth+1), b.of(x.Index, at, depth+1))
 	case *ssa.Index:
-		return b.mk("index", "", v, b.of(x.X, at, depth+1), b.of(x.Index, at, depth+1))
+		xt := b.of(x.X, at, depth+1)
+		if xt.Op == "load" && len(xt.Args) == 1 {
+			if _, isArr := x.X.Type().Underlying().(*types.Array); isArr {
+				// (*p)[i] on an array value loaded from p is p[i] (a `for i, v := range arr` copy of an unmodified array)
+				return b.mk("load", "", v, b.mk("iaddr", "", nil, xt.Args[0], b.of(x.Index, at, depth+1)))
+			}
+		}
+		return b.mk("index", "", v, xt, b.of(x.Index, at, depth+1))
 	case *ssa.Lookup:
 		return b.mk("lookup", "", v, b.of(x.X, at, depth+1), b.of(x.Index, at, depth+1))
 	case *ssa.FieldAddr:
@@ -1004,7 +1011,16 @@ func (b *Builder) load(x *ssa.UnOp, at ssa.Instruction, depth int) *Term {
 			return b.of(s.Val, at, depth+1)
 		}
 	}
-	return b.mk("load", "", x, b.of(x.X, x, depth+1))
+	at2 := b.of(x.X, x, depth+1)
+	// []byte(s)[i] is s[i]
+	if at2.Op == "iaddr" && len(at2.Args) == 2 && at2.Args[0].Op == "conv" && (at2.Args[0].Name == "[]byte" || at2.Args[0].Name == "[]uint8") && len(at2.Args[0].Args) == 1 {
+		if tt := termType(at2.Args[0].Args[0]); tt != nil {
+			if bt, ok := tt.Underlying().(*types.Basic); ok && bt.Info()&types.IsString != 0 {
+				return b.mk("index", "", x, at2.Args[0].Args[0], at2.Args[1])
+			}
+		}
+	}
+	return b.mk("load", "", x, at2)
 }
 
 // withHistory wraps base with the mutation history of the object v denotes.
